@@ -28,10 +28,10 @@ def parse_eval_log(msg):
     return None
 
 
-def body_evalobj(E, n, m, with_h, preset):
+def body_evalobj(E, n, m, with_h, preset, xr=False):
     log = EvalLog()
-    objfun = mk_objfun(E, m, log)
-    C, M, ghost, params = mk_controller(E, n, m, n + 1, n + 1, preset=preset, with_h=with_h, with_save=False, objfun=objfun)
+    objfun = mk_objfun(E, m, log, xr=xr)
+    C, M, ghost, params = mk_controller(E, n, m, n + 1, n + 1, preset=preset, with_h=with_h, with_save=False, objfun=objfun, xr=xr)
     C.do_logging = True
     logged = []
     E.hooks(log=lambda level, msg: logged.append(parse_eval_log(msg)))
@@ -66,7 +66,10 @@ def body_evalobj(E, n, m, with_h, preset):
         if with_h:
             f = f + M.h(x)
         thresh = E.ite(M.rel_tol * M.objbeg > M.abs_tol, M.rel_tol * M.objbeg, M.abs_tol)
-        E.prove(E.le(f, thresh), 'C10:small-objective-exit-is-true')
+        if not xr:
+            E.prove(E.le(f, thresh), 'C10:small-objective-exit-is-true')
+        # a success flag is never attached to a non-finite objective (whatever f(x0) was: finite, inf or NaN)
+        E.prove(E.isfinite(f), 'C10:small-objective-success-has-a-finite-objective')
 
 
 def body_x0block(E, n, m, with_h, r0_old):
@@ -219,6 +222,11 @@ def harnesses(tier, seed):
                                   params=dict(n=n, m=m, with_h=with_h, preset=preset), cfg=cfg, functions=FUNCS,
                                   bounds="n=%d, m=%d, any nx <= nf <= maxfun, 1..3 samples requested" % (n, m), assumptions=common,
                                   expect=['nf-counts-calls', 'logged-eval-numbers-consecutive', 'short-count-means-budget-exhausted'], nproc=1))
+            if not with_h:
+                hs.append(Harness("evaluate_objective[n=%d,m=%d,h=0,default,bad-values]" % (n, m), 'dfverif.checks.c02', 'body_evalobj',
+                                  params=dict(n=n, m=m, with_h=False, preset='default', xr=True), cfg=core.Cfg(qtimeout_ms=20000, uflin=True), functions=FUNCS,
+                                  bounds="n=%d, m=%d, residuals and f(x0) NaN / +-inf / finite, 1..3 samples" % (n, m), assumptions=common,
+                                  expect=['nf-counts-calls'], nproc=1))
             for r0_old in (False, True):
                 hs.append(Harness("x0-block[n=%d,m=%d,h=%d,old=%d]" % (n, m, with_h, r0_old), 'dfverif.checks.c02', 'body_x0block',
                                   params=dict(n=n, m=m, with_h=with_h, r0_old=r0_old), cfg=cfg, functions=FUNCS,
